@@ -52,6 +52,10 @@ reports a stability level other than `Undefined` (`connectorStability`) -/
 structure Conn where
   id : CompId
   supp : List (Sig × Sig)
+  /-- run-time behaviour of the (test) connector: `none` = it hands every payload to its whole router (all next
+  pipelines); `some S` = it uses the router API (`RouterAndConsumer.PipelineIDs()` / `Consumer(ids…)`) and delivers
+  only to the next pipelines whose *name* is in `S` (nothing when none is) -/
+  sel : Option (List Nat) := none
 deriving DecidableEq, Repr
 
 structure Cfg where
@@ -185,6 +189,22 @@ def succOf (es : List (Node × Node)) (n : Node) : List Node :=
   dedup (es.filterMap (fun e => if e.1 = n then some e.2 else none))
 
 def succ (cfg : Cfg) : Node → List Node := succOf (edges cfg)
+
+/-! ## connectors that choose their destination by pipeline id
+
+The graph gives every connector instance a router over **all** its next pipelines, keyed by pipeline id
+(`connector.New<Signal>Router`).  A connector may deliver to a subset chosen by id.  `flowEdges` is the graph as the
+data actually flows: the connector → capabilities edges a selective connector does not use are dropped. -/
+
+/-- connector `c` delivers to a next pipeline named `name` -/
+def Cfg.selects (cfg : Cfg) (c : CompId) (name : Nat) : Bool :=
+  cfg.conns.all (fun k => k.id != c || (match k.sel with | none => true | some S => S.contains name))
+
+def flowAllowed (cfg : Cfg) : Node × Node → Bool
+  | (.conn _ _ c, .cap q) => cfg.selects c q.name
+  | _ => true
+
+def flowEdges (cfg : Cfg) : List (Node × Node) := (edges cfg).filter (flowAllowed cfg)
 
 /-! ## `topo.Sort` succeeds iff the graph has no directed cycle
 
